@@ -20,8 +20,27 @@ def corpus_cases():
     return cases
 
 
+RICH = ["x[*] == 'a\\n' AND y DOES NOT EXIST OR z >= 0x1F AND w <= 1.5e+10 AND :p != \"q\\\"\" AND k IN [1, 'a'] AND NOT (m.n[2].length > 3)",
+        "ANY(items[*] price > 5) OR f(a, b) OR a[*].b EXISTS OR tags[0] STARTS_WITH 'J' OR name MATCHES '^a.*b$' OR u NOT IN [2.5, 3e2]",
+        "a == true AND b != false OR c == null AND (d < 1 OR (e > 2 AND (f <= 3 OR g >= 4))) AND h CONTAINS \"x\" AND i ENDS_WITH 'y'"]
+
+
+def prefix_cases(rng, texts):
+    out = []
+    for t in texts:
+        doc = json.dumps(gen_doc(rng)).encode()
+        b = t.encode('utf-8')
+        for i in range(len(b) + 1):
+            out.append((b[:i], [doc]))
+            if i < len(b):
+                out.append((b[:i] + b[i + 1:], [doc]))      # one byte deleted
+    return out
+
+
 def gen_cases(rng, n, prop):
     cases = []
+    if prop == 'C14':
+        cases += prefix_cases(rng, RICH + [gen_expr(rng) for _ in range(4)])
     for i in range(n):
         t = gen_expr(rng)
         docs = [json.dumps(gen_doc(rng), ensure_ascii=rng.random() < 0.5).encode() for _ in range(3)]
